@@ -16,7 +16,7 @@ from fractions import Fraction
 
 import numpy as np
 
-from .. import coqrun, hf_util
+from .. import coqrun
 from ..core import Corr
 from ..coqrun import cz, cstr, clist, copt, cbool
 from ..translate import hashconsts
@@ -313,8 +313,8 @@ def listed_fields(m, geometry=None):
     )
 
 
-def any_near_tie(m, geometry=None):
-    return (any(near_tie(x, NOISE["geometry"]) for x in list(np.asarray(m.geometry).ravel()) + list(geometry or []))
+def any_near_tie(m, geometry=None, tol=1e-3):
+    return (any(near_tie(x, NOISE["geometry"], tol) for x in list(np.asarray(m.geometry).ravel()) + list(geometry or []))
             or any(near_tie(x, NOISE["masses"]) for x in m.masses)
             or any(near_tie(x, NOISE["charges"]) for x in list(m.fragment_charges) + [m.molecular_charge]))
 
@@ -482,6 +482,11 @@ def perturbations(rng, spec, m):
                                            identifiers={"smiles": "C" * rng.randint(1, 4)},
                                            atom_labels=[rng.choice(["", "a", "x1"]) for _ in range(nat)],
                                            provenance={"creator": "verif", "version": "1.0", "routine": "c11"})))
+    h0 = m.get_hash()
+    out.append(("identifiers_own_hash", "equal", with_(identifiers={"molecule_hash": h0})))
+    out.append(("identifiers_junk_hash", "equal", with_(identifiers={"molecule_hash": rng.choice(["junk", "f" * 40]), "smiles": "C"})))
+    out.append(("geometry_noise_13", "equal", with_(geometry_noise=13)))
+    out.append(("geometry_noise_13+noise", "equal", with_(geometry_noise=13, geometry=[x + rng.uniform(-1e-10, 1e-10) if x != 0 else x for x in g])))
     out.append(("symbol_case", "equal", with_(symbols=[rng.choice([s.lower(), s.upper(), s.title()]) for s in spec["symbols"]])))
     # defaults written out
     out.append(("explicit_defaults", "equal", with_(masses=[float(x) for x in m.masses], real=[bool(x) for x in m.real],
@@ -543,6 +548,10 @@ def perturbations(rng, spec, m):
         for key in ("fragment_charges", "fragment_multiplicities", "molecular_multiplicity"):
             sp.pop(key, None)
         out.append(("fragment_boundary", "different", sp))
+    # the same edits on a molecule that carries the (now stale) hash of the original in identifiers.molecule_hash
+    for label, intended, sp in list(out):
+        if intended == "different" and label in ("coord_1e-6", "coord_3e-8", "symbol", "charge", "multiplicity", "ghost_flag", "mass_2e-6"):
+            out.append((label + "+stale_hash", "different", dict(sp, identifiers={"molecule_hash": h0})))
     return out
 
 
@@ -571,9 +580,10 @@ CORPUS = [
 # ------------------------------------------------------------------------------------------------
 # the oracle on one pair
 
-def judge_pair(ma, mb, ga=None, gb=None):
+def judge_pair(ma, mb, ga=None, gb=None, tol=1e-3):
     """returns (verdict dict, failure text or None, skipped?); ga/gb: the input coordinates when the molecule was
-    built from keyword arguments"""
+    built from keyword arguments; tol: how close (in rounding units) to a rounding boundary a coordinate may lie
+    before the pair is left unjudged (0.03 for pairs that differ by <= 1e-10 noise on arbitrary coordinates)"""
     fa, fb = listed_fields(ma, ga), listed_fields(mb, gb)
     ha, hb = ma.get_hash(), mb.get_hash()
     same_fields = fa == fb
@@ -584,7 +594,7 @@ def judge_pair(ma, mb, ga=None, gb=None):
         obs["differing"] = diff_report(fa, fb)[:12]
     if eq1 != same_hash or eq2 != same_hash:
         return obs, "__eq__ disagrees with equality of hashes", False
-    if any_near_tie(ma, ga) or any_near_tie(mb, gb):
+    if any_near_tie(ma, ga, tol) or any_near_tie(mb, gb, tol):
         return obs, None, True
     if same_fields and not same_hash:
         return obs, "the listed fields agree after the documented rounding but the hashes differ", False
@@ -619,19 +629,168 @@ def _known_zone(f):
 KNOWN = {"C11-zero-flip-threshold": _known_zone}
 
 
+def apply_recipe(m, rec):
+    """object-level derivations and re-validations (all JSON-able, so that a replay can redo them)"""
+    import random as _random
+    from qcelemental.models import Molecule
+    kind = rec[0]
+    with contextlib.redirect_stdout(io.StringIO()):
+        if kind == "scramble":                     # geometry_noise=13 inside
+            return m.scramble(do_shift=rec[1], do_rotate=rec[2], do_resort=False, do_mirror=bool(rec[3]), do_test=False, verbose=0)[0]
+        if kind == "align_to_scrambled":           # geometry_noise=13 inside
+            ref = m.scramble(do_shift=rec[1], do_rotate=rec[2], do_resort=False, do_test=False, verbose=0)[0]
+            return m.align(ref, atoms_map=True, verbose=0)[0]
+        if kind == "orient_molecule":
+            return m.orient_molecule()
+        if kind == "from_data_orient":
+            return Molecule.from_data(m.dict(), orient=True)
+        if kind == "get_fragment":
+            return m.get_fragment(list(rec[1]), list(rec[2]) if rec[2] else None, group_fragments=bool(rec[3]))
+        if kind == "dict_roundtrip":               # carries validated=True: no re-validation, geometry untouched
+            return Molecule(**m.dict())
+        if kind == "revalidate_dict":
+            d = m.dict()
+            d.pop("validated", None)
+            return Molecule(**d)
+        if kind == "revalidate_json":
+            d = json.loads(m.json())
+            d.pop("validated", None)
+            return Molecule(**d)
+        if kind == "kwargs_fields":
+            kw = {"symbols": [str(x) for x in m.symbols], "geometry": np.asarray(m.geometry).ravel().tolist(),
+                  "masses": [float(x) for x in m.masses], "real": [bool(x) for x in m.real],
+                  "fragments": [[int(i) for i in f] for f in m.fragments],
+                  "fragment_charges": [float(x) for x in m.fragment_charges],
+                  "fragment_multiplicities": [int(x) for x in m.fragment_multiplicities],
+                  "molecular_charge": float(m.molecular_charge), "molecular_multiplicity": int(m.molecular_multiplicity)}
+            if m.connectivity is not None:
+                kw["connectivity"] = [tuple(b) for b in m.connectivity]
+            return Molecule(**kw)
+        if kind == "revalidate_noise":             # <= 1e-10 on every coordinate
+            rr = _random.Random(rec[1])
+            d = m.dict()
+            d.pop("validated", None)
+            d["geometry"] = [float(x) + rr.uniform(-1e-10, 1e-10) for x in np.asarray(m.geometry).ravel()]
+            return Molecule(**d)
+        if kind == "copy_update":                  # pydantic copy: no validation at all
+            return m.copy(update=_update_of(m, rec[1]))
+        if kind == "dict_update":                  # Molecule(**{**mol.dict(), ...}) (validated=True is carried along)
+            return Molecule(**{**m.dict(), **_update_of(m, rec[1], for_dict=True)})
+        if kind == "dict_update_revalidate":
+            d = {**m.dict(), **_update_of(m, rec[1], for_dict=True)}
+            d.pop("validated", None)
+            return Molecule(**d)
+    raise KeyError(kind)
+
+
+def _update_of(m, upd, for_dict=False):
+    """upd: ['name', text] | ['identifiers', dict] | ['geometry', k, delta] | ['symbol', k, sym] | ['real', k] |
+    ['charge', delta] | ['multiplicity', delta]"""
+    from qcelemental.models.molecule import Identifiers
+    what = upd[0]
+    if what == "name":
+        return {"name": upd[1]}
+    if what == "identifiers":
+        return {"identifiers": dict(upd[1]) if for_dict else Identifiers(**upd[1])}
+    if what == "geometry":
+        g = np.array(m.geometry, dtype=float).reshape(-1, 3).copy()
+        g.ravel()[upd[1]] += upd[2]
+        return {"geometry": g}
+    if what == "symbol":
+        sy = [str(x) for x in m.symbols]
+        sy[upd[1]] = upd[2]
+        return {"symbols": np.array(sy)}
+    if what == "real":
+        r = np.array([bool(x) for x in m.real])
+        r[upd[1]] = not r[upd[1]]
+        return {"real": r} if for_dict else {"real_": r}
+    if what == "charge":
+        c = float(m.molecular_charge) + upd[1]
+        fc = [float(x) for x in m.fragment_charges]
+        fc[0] += upd[1]
+        return {"molecular_charge": c, "fragment_charges": fc} if for_dict else {"molecular_charge": c, "fragment_charges_": fc}
+    if what == "multiplicity":
+        mm = int(m.molecular_multiplicity) + upd[1]
+        fm = [int(x) for x in m.fragment_multiplicities]
+        fm[0] += upd[1]
+        return {"molecular_multiplicity": mm, "fragment_multiplicities": fm} if for_dict else {"molecular_multiplicity": mm, "fragment_multiplicities_": fm}
+    raise KeyError(what)
+
+
 def build_pair(case):
     ma = build(case["a"])
+    for rec in case.get("chain_a", []):
+        ma = apply_recipe(ma, rec)
     if "route" in case:
         mb = via_route(ma, case["route"], tag="replay")
+    elif "chain_b" in case:
+        mb = ma
+        for rec in case["chain_b"]:
+            mb = apply_recipe(mb, rec)
     else:
         mb = build(case["b"])
     return ma, mb
 
 
 def case_geoms(case):
-    ga = [float(x) for x in case["a"]["geometry"]]
+    ga = [float(x) for x in case["a"]["geometry"]] if not case.get("chain_a") else None
     gb = [float(x) for x in case["b"]["geometry"]] if "b" in case else None
     return ga, gb
+
+
+def case_tol(case):
+    return 0.03 if any(r[0] == "revalidate_noise" for r in case.get("chain_b", [])) else 1e-3
+
+
+def rand_rotation(rng):
+    import math as _m
+    a, b, c = (rng.uniform(0, 2 * _m.pi) for _ in range(3))
+    Rz = np.array([[_m.cos(a), -_m.sin(a), 0], [_m.sin(a), _m.cos(a), 0], [0, 0, 1]])
+    Ry = np.array([[_m.cos(b), 0, _m.sin(b)], [0, 1, 0], [-_m.sin(b), 0, _m.cos(b)]])
+    Rx = np.array([[1, 0, 0], [0, _m.cos(c), -_m.sin(c)], [0, _m.sin(c), _m.cos(c)]])
+    return (Rz @ Ry @ Rx).tolist()
+
+
+RATIONAL_ROT = [[0.0, -1.0, 0.0], [0.6, 0.0, 0.8], [0.8, 0.0, -0.6]]
+
+
+def derived_cases(rng, spec, m0):
+    """(stream, case) pairs on molecules produced by the library itself (align / scramble build with
+    geometry_noise=13 and so store digits below 1e-8) and on molecules carrying identifiers.molecule_hash"""
+    out = []
+    nat = len(spec["symbols"])
+    shift = [round(rng.uniform(-2, 2), 3) for _ in range(3)]
+    chains = [[["scramble", shift, RATIONAL_ROT, False]], [["scramble", shift, rand_rotation(rng), rng.random() < 0.3]],
+              [["orient_molecule"]], [["from_data_orient"]]]
+    if nat > 1:
+        chains.append([["align_to_scrambled", shift, rand_rotation(rng) if rng.random() < 0.5 else RATIONAL_ROT]])
+    nfr = len(m0.fragments)
+    if nfr > 1:
+        chains.append([["get_fragment", [0], [1] if rng.random() < 0.5 else [], True]])
+    else:
+        chains.append([["get_fragment", [0], [], True]])
+    sp13 = dict(spec, geometry_noise=13)
+    for ch in chains:
+        for reval in (["revalidate_dict"], ["revalidate_json"], ["kwargs_fields"], ["dict_roundtrip"], ["revalidate_noise", rng.randrange(10 ** 6)]):
+            if rng.random() < 0.22:
+                out.append(("derived:" + ch[0][0] + ":" + reval[0], {"a": spec, "chain_a": ch, "chain_b": [reval]}))
+    for reval in rng.sample([["revalidate_dict"], ["revalidate_json"], ["kwargs_fields"], ["revalidate_noise", rng.randrange(10 ** 6)]], 2):
+        out.append(("derived:geometry_noise_13:" + reval[0], {"a": sp13, "chain_a": [["dict_roundtrip"]], "chain_b": [reval]}))
+    # identifiers.molecule_hash (database layers store it; it must never be what get_hash answers with)
+    h0 = m0.get_hash()
+    for ident in ({"molecule_hash": h0}, {"molecule_hash": "0" * 40, "smiles": "C"}, {"molecule_hash": "junk"}):
+        spi = dict(spec, identifiers=ident)
+        k = rng.randrange(3 * nat)
+        ka = rng.randrange(nat)
+        edits = [["geometry", k, rng.choice([1e-6, -1e-6])], ["symbol", ka, SAME_PARITY[spec["symbols"][ka].title()]],
+                 ["charge", 2.0], ["multiplicity", 2], ["name", "renamed"], ["identifiers", {"molecule_hash": "other", "inchi": "x"}]]
+        if nat > 1:
+            edits.append(["real", ka])
+        for upd in edits:
+            for how in ("copy_update", "dict_update", "dict_update_revalidate"):
+                if rng.random() < 0.1:
+                    out.append(("identifiers:" + how + ":" + upd[0], {"a": spi, "chain_b": [[how, upd]]}))
+    return out
 
 
 # ------------------------------------------------------------------------------------------------
@@ -722,7 +881,7 @@ def correspond(ctx):
 
     def add_pair(stream, case, ma, mb, intended=None):
         nonlocal skipped_tie
-        obs, bad, skipped = judge_pair(ma, mb, *case_geoms(case))
+        obs, bad, skipped = judge_pair(ma, mb, *case_geoms(case), tol=case_tol(case))
         corr.count("oracle:" + stream.split(":")[0])
         corr.hit("pair_same_hash" if obs["same_hash"] else "pair_different_hash")
         if skipped:
@@ -740,7 +899,7 @@ def correspond(ctx):
             pair_meta.append((stream, case, obs))
             corr.count("pairs:" + stream.split(":")[0])
 
-    pair_frac = 0.4 if ctx.thorough else 0.2
+    pair_frac = 0.3 if ctx.thorough else 0.1
     # corpus first
     for name, a, b in CORPUS:
         case = {"a": a, "b": b}
@@ -785,6 +944,16 @@ def correspond(ctx):
                 continue
             add_canon("route:" + route, mr, {"a": spec, "route": route})
             add_pair("route:" + route, {"a": spec, "route": route}, m0, mr)
+        # molecules derived by the library itself, and molecules carrying identifiers.molecule_hash
+        for dstream, dcase in derived_cases(rng, spec, m0):
+            try:
+                da, db = build_pair(dcase)
+            except Exception as e:
+                corr.hit(f"derived_unavailable:{dstream.split(':')[1]}:{ekind(e)}")
+                continue
+            if dstream.startswith("derived") and rng.random() < 0.4:
+                add_canon(dstream, da, dcase)
+            add_pair(dstream, dcase, da, db)
         for label, intended, sp in perturbations(rng, spec, m0):
             try:
                 mp = build(sp)
@@ -851,24 +1020,24 @@ def correspond(ctx):
         bmeta.append(conn)
 
     # evaluate the model
-    bad, errors = hf_util.eval_retry("C11canon", REQ, "", "check_canon", canon_terms, shard=120, ty="mol * list (string * fl) * list token")
+    bad, errors = coqrun.eval_bad_indices("C11canon", REQ, "", "check_canon", canon_terms, shard=120, ty="mol * list (string * fl) * list token")
     corr.errors.extend(f"canon shard {k}: {e}" for k, e in errors)
     for b in bad[:6]:
         stream, case, text = canon_meta[b]
         got, _ = coqrun.eval_terms("C11canon", REQ, "", [f"let '(m, e, x) := {canon_terms[b]} in canon (env_mass e) m"])
         corr.disagreements.append({"stream": "canon:" + stream, "case": case, "impl": text, "model": got})
-    bad, errors = hf_util.eval_retry("C11pair", REQ, "", "check_pair", pair_terms, shard=120, ty="mol * mol * list (string * fl) * bool")
+    bad, errors = coqrun.eval_bad_indices("C11pair", REQ, "", "check_pair", pair_terms, shard=120, ty="mol * mol * list (string * fl) * bool")
     corr.errors.extend(f"pair shard {k}: {e}" for k, e in errors)
     for b in bad[:6]:
         stream, case, obs = pair_meta[b]
         corr.disagreements.append({"stream": "pairs:" + stream, "case": case, "impl": obs, "model": "the opposite verdict on equality of the hashed texts"})
-    bad, errors = hf_util.eval_retry("C11prep", REQ, "", "check_prep", pterms, shard=1500, ty="bool * Z * fl * Z")
+    bad, errors = coqrun.eval_bad_indices("C11prep", REQ, "", "check_prep", pterms, shard=1500, ty="bool * Z * fl * Z")
     corr.errors.extend(f"prep shard {k}: {e}" for k, e in errors)
     for b in bad[:6]:
         arr, n, x, k = pmeta[b]
         got, _ = coqrun.eval_terms("C11prep", REQ, "", [f"{'prep_arr' if arr else 'prep_scalar'} {cz(n)} {cfl(x)}"])
         corr.disagreements.append({"stream": "float_prep", "case": {"prep": [arr, n, x]}, "impl": k, "model": got})
-    bad, errors = hf_util.eval_retry("C11bonds", REQ, "", "check_bonds", bterms, shard=500, ty="list bond * outcome (list bond)")
+    bad, errors = coqrun.eval_bad_indices("C11bonds", REQ, "", "check_bonds", bterms, shard=500, ty="list bond * outcome (list bond)")
     corr.errors.extend(f"bonds shard {k}: {e}" for k, e in errors)
     for b in bad[:6]:
         got, _ = coqrun.eval_terms("C11bonds", REQ, "", [f"validate_bonds (fst {bterms[b]})"])
@@ -891,9 +1060,9 @@ def search(ctx, corr, reasons):
                 a = {"symbols": ["C", "H", "H", "H"], "geometry": [0, 0, 0, 2, 0, 0, 0, 2, 0, 0, 0, 2], "connectivity": conn}
                 b = dict(a, connectivity=[[x[1], x[0], x[2]] for x in reversed(conn)])
                 case = {"a": a, "b": b}
-            if "a" in case and ("b" in case or "route" in case):
+            if "a" in case and ("b" in case or "route" in case or "chain_b" in case):
                 ma, mb = build_pair(case)
-                obs, bad, _ = judge_pair(ma, mb, *case_geoms(case))
+                obs, bad, _ = judge_pair(ma, mb, *case_geoms(case), tol=case_tol(case))
                 if bad:
                     found.append({"stream": "search", "case": case, "what": bad, "observed": obs})
         except Exception:
@@ -927,7 +1096,7 @@ def replay(ctx, rp):
         k = run_prep(arr, n, x)
         return {"input": case, "implementation": k, "fails": not isinstance(k, int)}
     ma, mb = build_pair(case)
-    obs, bad, skipped = judge_pair(ma, mb, *case_geoms(case))
+    obs, bad, skipped = judge_pair(ma, mb, *case_geoms(case), tol=case_tol(case))
     return {"input": case, "implementation": obs, "oracle": bad, "fails": bool(bad)}
 
 
@@ -963,7 +1132,7 @@ LEVEL_TEXT = (
     "alike), C11_bond_order_invariant (any permutation and any orientation flips of the bond list give the same stored bonds; proved for "
     "the whole-tuple sort of commit 95cbbdc) and C11_bond_canon_idempotent. The model is tied to the code on every run by the regenerated "
     "constants/shape checks and by comparing its token list with the exact text the implementation hashed, for validated molecules x 12 "
-    "construction routes x 23 perturbations, plus equality classes on pairs, float_prep on single numbers and stored bond lists; the "
+    "construction routes x 34 perturbations, library-derived molecules (align / scramble / orient_molecule / get_fragment / from_data(orient) / geometry_noise=13) against their re-validated copies, and molecules carrying identifiers.molecule_hash edited through copy(update) / dict merge, plus equality classes on pairs, float_prep on single numbers and stored bond lists; the "
     "property oracle (exact decimal rounding of the getters' values, independent of float_prep) judges every pair on the implementation.")
 LEVEL_NOTE = (
     "Trusted: Coq kernel + vm_compute; the hand-written model and the translator; SHA-1 assumed injective (parameter, not modelled); "
